@@ -313,7 +313,8 @@ def rule_format(ctx):
             if isinstance(st_, ast.Assign) and len(st_.targets) == 1 and isinstance(st_.targets[0], ast.Name) and isinstance(st_.value, ast.Constant):
                 _CLASS_CONSTS[st_.targets[0].id] = st_.value
     writers = []
-    for c in [c_ for n_ in helper_closure(w) for c_ in calls_in(n_)]:
+    wnodes = helper_closure(w)
+    for c in [c_ for n_ in wnodes for c_ in calls_in(n_)]:
         k = _time_writer(c)
         if k:
             writers.append((c, k))
@@ -325,6 +326,19 @@ def rule_format(ctx):
             readers.append((c, ("strptime", _const_arg(c.args[1]).value)))
         elif d.endswith("fromisoformat"):
             readers.append((c, ("fromisoformat", None)))
+    if len(writers) == 1:
+        # one writer applied to both times by a comprehension / loop over the two positions (or over self.times)
+        from ..flow import iteration_constructs
+        c1 = writers[0][0]
+        for ic in [ic_ for n_ in wnodes for ic_ in iteration_constructs(n_)]:
+            if any(c1 is x for e_ in ic["elts"] for x in ast.walk(e_)) and not ic["ifs"]:
+                it_ = str(norm(ic["iter"])).replace(" ", "")
+                tgt = norm(ic["target"])
+                recv = norm(c1.func.value) if isinstance(c1.func, ast.Attribute) else ""
+                over_times = it_ == "self.times" and recv == tgt
+                over_index = it_ in ("range(2)", "(0,1)", "[0,1]") and str(recv).replace(" ", "") in ("self.times[%s]" % tgt, "times[%s]" % tgt)
+                if over_times or over_index:
+                    writers = [writers[0], writers[0]]
     if len(writers) < 2 or not readers:
         raise AnalysisError("time writer/reader calls not found in FileInfo.to_json_dict/from_json_dict")
     kinds = set(k for _, k in writers)
